@@ -1,7 +1,7 @@
 use std::{
     any::TypeId,
     hash::Hash,
-    sync::atomic::{AtomicI32, Ordering},
+    sync::atomic::{AtomicI32, AtomicU64, Ordering},
 };
 
 use crate::{
@@ -36,6 +36,11 @@ pub struct WideColumnCache<
     tiny_lfu: TinyLFU<K, Entry<V>, PinnedLifecycleListener>,
     single_flight: single_flight::SingleFlight<K>,
 
+    /// Bumped (under the entry lock) by every `insert`/`remove`; a cache fill
+    /// only installs the value it read from the store if no write happened
+    /// since before it probed the cache.
+    write_generation: AtomicU64,
+
     _phantom: std::marker::PhantomData<T>,
 }
 
@@ -53,6 +58,7 @@ impl<K: Clone + Eq + Hash + Send + Sync + 'static, V: Send + Sync + 'static, T>
             single_flight: single_flight::SingleFlight::new(
                 default_shard_amount(),
             ),
+            write_generation: AtomicU64::new(0),
             _phantom: std::marker::PhantomData,
         }
     }
@@ -68,6 +74,9 @@ impl<K: Eq + Hash + Clone + Send + Sync + 'static, V: Send + Sync + 'static, T>
         init: impl Fn() -> Option<V>,
     ) -> Option<U> {
         loop {
+            // must be read before the probe below
+            let generation = self.write_generation.load(Ordering::SeqCst);
+
             // FAST PATH: Check if the value is already cached, return it  if
             // found.
             if let Some(entry) =
@@ -83,10 +92,17 @@ impl<K: Eq + Hash + Clone + Send + Sync + 'static, V: Send + Sync + 'static, T>
 
                     self.tiny_lfu.entry(key.clone(), |entry| match entry {
                         tiny_lfu::Entry::Vacant(vaccant_entry) => {
-                            vaccant_entry.insert(Entry {
-                                value,
-                                pin_count: AtomicI32::new(0),
-                            });
+                            // a write that was committed, un-pinned and
+                            // evicted since we probed would make `value`
+                            // stale; retry instead of installing it
+                            if self.write_generation.load(Ordering::SeqCst)
+                                == generation
+                            {
+                                vaccant_entry.insert(Entry {
+                                    value,
+                                    pin_count: AtomicI32::new(0),
+                                });
+                            }
                         }
 
                         tiny_lfu::Entry::Occupied(_) => {
@@ -101,6 +117,8 @@ impl<K: Eq + Hash + Clone + Send + Sync + 'static, V: Send + Sync + 'static, T>
 
     pub fn insert(&self, key: K, value: V, updated: bool) {
         let old_value = self.tiny_lfu.entry(key, |e| {
+            self.write_generation.fetch_add(1, Ordering::SeqCst);
+
             match e {
                 tiny_lfu::Entry::Vacant(vaccant_entry) => {
                     vaccant_entry.insert(Entry {
@@ -131,7 +149,10 @@ impl<K: Eq + Hash + Clone + Send + Sync + 'static, V: Send + Sync + 'static, T>
     }
 
     pub fn remove(&self, key: &K, updated: bool) {
-        let old_value = self.tiny_lfu.entry(key.clone(), |x| match x {
+        let old_value = self.tiny_lfu.entry(key.clone(), |x| {
+            self.write_generation.fetch_add(1, Ordering::SeqCst);
+
+            match x {
             tiny_lfu::Entry::Vacant(vaccant_entry) => {
                 // if ran with updated=true, with must create a negative
                 // cache entry that will use to prevent future `get_init`
@@ -162,6 +183,7 @@ impl<K: Eq + Hash + Clone + Send + Sync + 'static, V: Send + Sync + 'static, T>
                         occupied_entry.get_mut().value.take()
                     }
                 }
+            }
             }
         });
 
